@@ -26,6 +26,10 @@ CLAIMS = {
             "ORD/MPT/DOM/WHO path rules over clang AST/CFG", "3 C10"),
     "C12": ("structural rules on Callback: slot fields consulted only under a state test, physical removal only with no active emission and marking sets dirty, both sides updated together, all nine emit arities test state before and `invalidated` after each invocation and agree with each other, activation chain push/pop/propagation, ~Emitter invalidates first, Emitter/Listener not copyable; the invocation log against a model of live connections over all nested histories is NOT decided",
             "DOM/MPT/PAIRF rules + sibling comparison over clang AST/CFG", "3 C12"),
+    "C13": ("structural rules on the Server client write path: direct send only without backlog, buffered remainder is the exact complement of what send returned, every `return true` accounts for all bytes and failures queue the close, interest flags equal (read iff not suspended | write iff backlog) under all open valuations at every registration, would-block convention agrees between Socket::send/recv and their three consumers, postponed size, onWrite after drain and interest update with no use of the client afterwards; the byte stream at the peer for all OS send outcomes is NOT decided",
+            "DOM/MPT/FIN/TBL rules over clang AST/CFG", "3 C13"),
+    "C14": ("structural rules on the event loop: equal-range contract of MultiMap::find for forward-scanning consumers, unregister-before-destroy in every remove(), pruning of buffered poll events on remove/set, dispatch cast agrees with the registered type per flag, no use of an object after its callback (timers re-queued first), interrupt flag under its mutex and stored before the wake-up, deferred close after failed I/O, default timer always present; timing (never before due, order of due times), eventual dispatch and epoll behaviour are NOT decided",
+            "ORD/MPT/TAG/typestate rules over clang AST/CFG", "3 C14"),
     "C11": ("protocol-shape rules on the POSIX implementation: lock-state dataflow (pairing on every path, condition waits only with the lock), flag accesses inside the critical section, waits re-check in a loop and Monitor consumes the flag, set publishes under the lock then notifies (broadcast vs signal), timed waits fail only through the timed primitive, deadline arithmetic by dimension typing + interval analysis + sibling agreement, recursive mutex attribute, Thread handle/join discipline, storage sizes, thin Semaphore mapping; the contracts under all interleavings as such, fairness and the pthread primitives' behaviour are NOT decided",
             "lock-state dataflow + DOM/MPT rules + unit typing + interval analysis over clang AST/CFG", "3 C11"),
     "C08": ("path and pairing rules over every Buffer member: terminator after every end update on owning paths, ownership<->capacity pairing, allocation X+1 with _capacity X, release/re-seat pairing, complete swap, rule of three, and linear-inequality entailment (own Fourier-Motzkin over dominating guards + class invariant) that every copy/move target and terminator store lies inside the allocation; content equality with a reference byte queue is NOT decided",
